@@ -3,6 +3,11 @@
 import json, subprocess, os
 
 CHECKS = {
+ "C18": dict(level="model_checking", engine="plain build on the real file system",
+   technique="exhaustive enumeration of all open / failing-open / close sequences up to a depth on one path with the real Open, against the reference model 'who holds the lock'",
+   text="Every sequence of at most 5 (thorough 6) operations from {Open, second Open, Open with the wait flag in a goroutine, Open with invalid options, with both headers damaged, with the file truncated inside header 0, on a new file whose max size is below the mmap minimum (fails after the lock is taken), with the path symlinked to /dev/full (every write fails during initialisation), Close of each handle} is executed in a fresh directory with the uninstrumented library. A second open while one handle is held must fail with LockFailed (the waiting open must not return while the holder is open and must succeed after its Close); after Close and after any failed Open the path must be openable at once.",
+   note="Local file system with working flock(2); I/O failures during initialisation are those a real file system can be made to produce offline; the waiting open is judged by safety plus a 60 s ceiling.",
+   ref="5/C18"),
  "C05": dict(level="model_checking", engine="xstate",
    technique="exhaustive enumeration of producer/consumer scripts over boundary event sizes x chunkings x flush/read policies, plus explicit-state BFS over queue operations, on the real queue vs. a slice-of-events model",
    text="(i) every sequence of 1-2 (thorough: up to 3) events with sizes from the layout's boundary alphabet (page payload +/- a few bytes, event header straddling a page, multi page, larger than the write buffer) x 4 ways to split an event over Write calls x 3 flush policies x 4 read policies (whole, page buffer, 7-byte buffer, skip with Next; one or many reader transactions); (ii) BFS over Write(size class, chunking)/Flush/reader Begin/Next/Read(partial)/Done/ACK/reopen. Oracle: delivered events equal the flushed prefix of the appended events byte for byte, nothing skipped, duplicated, truncated or merged, Next returns the model size, unflushed events are never delivered, no call panics or deadlocks.",
